@@ -16,6 +16,7 @@ RULE = ("case = (cell descriptor with 0-3 zeroed non-periodic vectors, pbc, 1-12
 ASSUMPTIONS = [
     "required image set M computed by brute force: all offsets within ceil(ext/height)+1, point-to-parallelepiped distance by bounded least squares (scipy BVLS) with analytic lower/upper bounds",
     "images within 1e-7 of the extension/cutoff/tolerance boundary are not judged; exact ties between the two nearest images are not judged",
+    "the boundary itself is judged only where it is exact in floating point: orthogonal power-of-two cells with atoms on a 0.25 A grid and a query exactly one tolerance (0.25/0.5/1 A) from the unique nearest image; 'maximum allowed distance' (docstring) includes equality",
     "matching is exercised with tolerance <= min(extension, cutoff), as every caller in matid guarantees",
     "cases needing more than 3e4 image atoms or 2e6 bins are discarded and counted (cost)",
 ]
@@ -51,7 +52,71 @@ def _cases(draw):
             q["Z"] = draw(st.sampled_from([1, 6, 8]))
             q["shift"] = [draw(st.integers(-2, 2)) for _ in range(3)]
             queries.append(q)
-    return {"cell": cell, "pbc": pbc, "zero": zero, "frac": frac, "Z": Z, "ext": ext, "cut": cut, "queries": queries}
+    d = {"cell": cell, "pbc": pbc, "zero": zero, "frac": frac, "Z": Z, "ext": ext, "cut": cut, "queries": queries}
+    if draw(st.integers(0, 4)) == 0:
+        # exact boundary: an orthogonal cell and atoms on a quarter-Angstrom grid, a query exactly `tol` away from an atom (all
+        # numbers dyadic, so the distance IS the tolerance in floating point): "within the tolerance" includes the boundary
+        na = draw(st.integers(1, 4))
+        d["dyadic"] = {"L": [draw(st.sampled_from([4.0, 8.0, 2.0])) for _ in range(3)], "pbc": draw(gc.pbcs),
+                       "grid": [[draw(st.integers(0, 31)) for _ in range(3)] for _ in range(na)], "Z": [draw(st.sampled_from([1, 6, 8])) for _ in range(na)],
+                       "tol": draw(st.sampled_from([0.5, 0.25, 1.0])), "cutmult": draw(st.sampled_from([1.0, 2.0])), "atom": draw(st.integers(0, na - 1)),
+                       "axis": draw(st.integers(0, 2)), "sign": draw(st.sampled_from([1.0, -1.0])), "qZ": draw(st.sampled_from([1, 6, 8]))}
+    return d
+
+
+def _dyadic(dy, out):
+    """query exactly `tol` away from an atom (or from its periodic image): must be a match / substitution with the right offset"""
+    import itertools
+    import matid.geometry as mg
+    from ase import Atoms
+    L = np.array(dy["L"], float)
+    cell = np.diag(L)
+    pbc = np.array(dy["pbc"], bool)
+    pos = np.array([[(g * 0.25) % l for g, l in zip(row, L)] for row in dy["grid"]], float)
+    keep = [0] + [i for i in range(1, len(pos)) if not any(np.array_equal(pos[i], pos[j]) for j in range(i))]
+    if dy["atom"] not in keep:
+        return
+    a = keep.index(dy["atom"])
+    pos, Z = pos[keep], np.array(dy["Z"], int)[keep]
+    tol, ax = float(dy["tol"]), int(dy["axis"])
+    q = pos[a].copy()
+    q[ax] += dy["sign"] * tol
+    if not (0.0 <= q[ax] < L[ax]):
+        if not pbc[ax]:
+            return
+        q[ax] = q[ax] - L[ax] if q[ax] >= L[ax] else q[ax] + L[ax]
+    # exact image distances (every term is dyadic; the sum of squares is exact, the nearest one equals tol**2 exactly)
+    cand = []
+    for i in range(len(pos)):
+        for off in itertools.product(*[(-1, 0, 1) if pbc[k] else (0,) for k in range(3)]):
+            v = q - (pos[i] + np.array(off, float) * L)
+            cand.append((float(v @ v), i, off))
+    cand.sort()
+    if cand[0][0] != tol * tol or (len(cand) > 1 and cand[1][0] < (tol + 1e-6) ** 2):
+        return          # not the unique nearest image at exactly the tolerance
+    best, off = cand[0][1], cand[0][2]
+    cut = tol * float(dy["cutmult"])
+    out.cls("exact-boundary:distance==tolerance", "exact-boundary:cutoff==tolerance" if cut == tol else "exact-boundary:cutoff>tolerance")
+    at = Atoms(numbers=Z, positions=pos, cell=cell, pbc=pbc)
+    ok, cl = call(mg.get_cell_list, pos.copy(), cell.copy(), pbc.copy(), cut, cut)
+    if not ok:
+        return out.fail("returns-normally", "get_cell_list (dyadic case): %r" % cl, key="exc:" + exc_key(cl))
+    num = int(dy["qZ"])
+    ok, res = call(mg.get_matches, at, cl, q[None, :].copy(), [num], tol)
+    if not ok:
+        return out.fail("returns-normally", "get_matches (dyadic case): %r" % res, key="exc:" + exc_key(res))
+    m, sb, vac, ci = res
+    want = "match" if Z[best] == num else "substitution"
+    got = "match" if m[0] is not None else "substitution" if sb[0] is not None else "vacancy"
+    if got != want or (got == "match" and int(m[0]) != best) or (got == "substitution" and int(sb[0].index) != best):
+        out.fail("match-at-tolerance", "nearest image (atom %d, offset %s) lies exactly at the tolerance %.4g: expected %s, got %s" % (best, list(off), tol, want, got), key="match-at-tolerance")
+    elif not np.array_equal(np.array(ci[0], float), np.array(off, float)):
+        out.fail("match-offset", "image exactly at the tolerance: cell offset %s reported, image has offset %s" % (np.array(ci[0]).tolist(), list(off)), key="match-offset-at-tolerance")
+    ok, res = call(mg.get_matches_simple, at, cl, q[None, :].copy(), [num], tol)
+    if ok:
+        ms = res[0]
+        if (want == "match") != (ms[0] is not None and int(ms[0]) == best):
+            out.fail("simple-at-tolerance", "get_matches_simple: image exactly at the tolerance, expected %s, got %r" % ("atom %d" % best if want == "match" else "no match", ms[0]), key="simple-at-tolerance")
 
 
 def strategy(tier):
@@ -62,6 +127,8 @@ def run_case(desc):
     import matid.geometry as mg
     from ase import Atoms
     out = Outcome()
+    if desc.get("dyadic"):
+        _dyadic(desc["dyadic"], out)
     cc = gc.build_cell(desc["cell"])
     pbc = np.array(desc["pbc"], bool)
     zero = np.array(desc["zero"], bool)
